@@ -204,7 +204,9 @@ impl<'a> StateMachine<'a> {
         // \r and \n, in which case byte_lines does not remove the \r. Remove it now.
         // TODO: Limit the number of characters we examine when looking for the \r?
         if let Some(cr_index) = self.raw_line.rfind('\r') {
-            if ansi::measure_text_width(&self.raw_line[cr_index + 1..]) == 0 {
+            // (Only escape sequences may follow: text of zero width, such as combining
+            // characters, is text, and a \r in front of it is not a line ending.)
+            if ansi::strip_ansi_codes(&self.raw_line[cr_index + 1..]).is_empty() {
                 self.raw_line = format!(
                     "{}{}",
                     &self.raw_line[..cr_index],
